@@ -757,7 +757,7 @@ func (g *gen) oddSteps(d *Node) {
 		cur = nil
 	case 8:
 		for _, x := range scs.L {
-			set(x, "weight", nInt(int64(g.pick2([]int{6, 9, 15, 21, 1000000007, 4, 0}))))
+			set(x, "weight", nInt(int64(g.pick2([]int{6, 9, 15, 21, 35, 4, 0, 1, 12}))))
 		}
 	case 9:
 		cur = append(cur, s+"(3)", "sleep(5)", "sleep(7)", s+"(0, 9)", "sleep(11)")
@@ -784,7 +784,7 @@ func line(sx int64, mal int, d *Node) string {
 func generate(r *rand.Rand, tier string) []string {
 	n := 500
 	if tier == "thorough" {
-		n = 9000
+		n = 100000
 	}
 	g := &gen{r: r}
 	var out []string
@@ -801,17 +801,32 @@ func generate(r *rand.Rand, tier string) []string {
 		}
 		out = append(out, line(r.Int63n(1<<40), mal, d))
 	}
+	// exhaustive small enumerations: all of them in the thorough tier, a random sample in the quick tier
+	k := 40
+	if tier == "thorough" {
+		k = 0
+	}
+	out = append(out, sample(r, enumOptional(), k)...)
+	out = append(out, sample(r, enumSteps(), k)...)
+	out = append(out, sample(r, enumWeights(), k)...)
+	out = append(out, sample(r, enumLocals(), k)...)
 	return out
 }
 
 func main() {
 	setup()
+	workers := 8
+	for i, a := range os.Args {
+		if (a == "-tier" || a == "--tier") && i+1 < len(os.Args) && os.Args[i+1] == "thorough" {
+			workers = 14
+		}
+	}
 	drv.Main(&drv.Prop{
 		ID:      "C16",
 		Gen:     generate,
 		Run:     runCase,
 		Class:   class,
-		Workers: 8,
+		Workers: workers,
 		Timeout: 30 * time.Second,
 		Rule: "random scenario descriptions (http requests or grpc calls, all registered variable sources / processors / templaters, 1-3 scenarios " +
 			"with weights, min_waiting_time, multipliers and sleeps; optional fields present, absent or present-and-zero; strings drawn from realistic " +
